@@ -9,7 +9,7 @@
 (* termination the labelling is valid w.r.t. QuickShiftRef.                        *)
 (* AttachFirstRoot = TRUE models the mutation "attach the path to the first root   *)
 (* reached" and must produce a counterexample.                                     *)
-EXTENDS QuickShiftRef, PeriodicRef, TLC
+EXTENDS QuickShiftRef, PeriodicRef, TLC, Json
 CONSTANTS N, Coords, Cuts, Mode, ShellK, AttachFirstRoot, Cell,    \* Cell = <<>>: free space, else minimum image
           Staged    \* TRUE: points, weights and cut-offs are chosen one point at a time by an action (for tlc -simulate on larger N)
 CellNone == <<>>
@@ -80,6 +80,9 @@ Spec == Init /\ [][Next]_vars
 AllowedRef(a) == IF Mode = "cut" THEN AllowedCut(N, DM, W, cut, a) ELSE AllowedGab(N, DM, W, Gab, ShellK, a)
 Done == i > N /\ pc = "outer"
 Correct == Done => (Valid(N, root, AllowedRef) /\ HeaviestIsCenter(N, W, root) /\ Idempotent(N, root))
+\* spec -> code: terminated behaviours are printed (simulation configurations only) and replayed into the real QuickShift.fit;
+\* the model breaks ties exactly as the code does (first index), so the labels must be IDENTICAL
+EmitDone == Done => PrintT(ToJson([k |-> "Q", mode |-> Mode, shell |-> ShellK, P |-> P, W |-> W, cut |-> cut, root |-> root]))
 \* the code's Gabriel graph (strict <) lies between Must and May
 GabrielOK == Mode = "cut" \/ pc = "place" \/ (GraphBetween(N, Gab, GabrielMust(N, DM), GabrielMay(N, DM)) /\ GSymmetric(N, Gab))
 ============================================================================
